@@ -14,7 +14,14 @@ pub fn run(stim: &Value, rec: &Rec) {
         let nb = json_bytes(&e["nb"]);
         let v = json_bytes(&e["v"]);
         let ok = if e["bin"].as_bool().unwrap_or(false) {
-            match MetadataKey::<Binary>::from_bytes(&nb) { Ok(k) => { m.append_bin(k, MetadataValue::from_bytes(&v)); true } Err(_) => false }
+            // the binary value is built through each of the constructors the API offers (they must all base64-code the same bytes)
+            let val: Option<MetadataValue<Binary>> = match (accepted.len() + v.len() / 4) % 4 {
+                0 => Some(MetadataValue::from_bytes(&v)),
+                1 => MetadataValue::<Binary>::try_from(bytes::Bytes::from(v.clone())).ok(),
+                2 => MetadataValue::<Binary>::try_from(v.clone()).ok(),
+                _ => MetadataValue::<Binary>::try_from(&v[..]).ok(),
+            };
+            match (MetadataKey::<Binary>::from_bytes(&nb), val) { (Ok(k), Some(val)) => { m.append_bin(k, val); true } _ => false }
         } else {
             match (MetadataKey::<Ascii>::from_bytes(&nb), MetadataValue::<Ascii>::try_from(&v[..])) { (Ok(k), Ok(val)) => { m.append(k, val); true } _ => false }
         };
@@ -88,7 +95,9 @@ pub fn gen(seed: u64, tier: &str) -> Vec<Value> {
             // the kind is chosen independently of the suffix so that construction must enforce the rule
             let bin = if rng.gen_bool(0.85) { name.ends_with("-bin") } else { rng.gen_bool(0.5) };
             let len = rng.gen_range(0..10);
-            let v: Vec<u8> = if bin { (0..len).map(|_| rng.gen()).collect() } else { match rng.gen_range(0..4) { 0 => (0..len).map(|_| rng.gen_range(0x80..=0xffu8)).collect(), 1 => (0..len).map(|_| rng.gen()).collect(), _ => (0..len).map(|_| rng.gen_range(0x20..0x7fu8)).collect() } };
+            // (a third of the binary payloads happen to read as base64 text themselves: they are payloads all the same)
+            let v: Vec<u8> = if bin && rng.gen_bool(0.33) { [&b"abcd"[..], b"user", b"QUI=", b"0123456789abcdef", b"AAAAA", b"YWJj/+8="][rng.gen_range(0..6)].to_vec() }
+                             else if bin { (0..len).map(|_| rng.gen()).collect() } else { match rng.gen_range(0..4) { 0 => (0..len).map(|_| rng.gen_range(0x80..=0xffu8)).collect(), 1 => (0..len).map(|_| rng.gen()).collect(), _ => (0..len).map(|_| rng.gen_range(0x20..0x7fu8)).collect() } };
             json!({"n": name, "nb": bytes_json(name.as_bytes()), "bin": bin, "v": bytes_json(&v)})
         }).collect();
         json!({"class":"metadata_map","entries":entries,"pad": i % 2 == 0})
